@@ -7,6 +7,7 @@ import (
 	"fmt"
 	"github.com/fullstorydev/grpchan/httpgrpc"
 	"github.com/fullstorydev/grpchan/inprocgrpc"
+	"google.golang.org/protobuf/encoding/protojson"
 	"google.golang.org/protobuf/proto"
 	"io"
 	"math/rand"
@@ -117,7 +118,17 @@ func checkC08(e *core.Env) {
 			sc.RecvAfterSend = true
 			sc.CancelAfterClient = true
 			e.Note("%s n=%d %s", c.Name, nresp, sc.Shape())
-			run, ok, _ := execScript(c, sc, nil)
+			var prep func(*Run)
+			if rr.Intn(3) == 0 {
+				// a caller that keeps one descriptor variable and fills it in anew for its next call as soon as this
+				// stream is open: what this call may yield was settled when it was opened
+				own := &grpc.StreamDesc{StreamName: "ClientStream", ClientStreams: true}
+				prep = func(run *Run) {
+					run.streamDescOverride = own
+					run.AfterOpen = func() { own.StreamName, own.ClientStreams, own.ServerStreams = "Bidi", true, true }
+				}
+			}
+			run, ok, _ := execScript(c, sc, prep)
 			if !ok {
 				e.Inconclusive("C08 %s %s: watchdog", c.Name, sc.Shape())
 				continue
@@ -524,6 +535,40 @@ func checkC08(e *core.Env) {
 	// a unary reply that breaks off in transit, or that is not a message at all, is no response: the call fails
 	// instead of succeeding with a message the handler never produced
 	unaryCutPhase(e, "http/unary/one-response", e.N(6, 60))
+
+	// a unary JSON request whose body holds two documents is two request messages: not a call that succeeds
+	jsonSvc := &Service{}
+	jsonSrv := httpgrpc.NewServer()
+	jsonSrv.RegisterService(&ScriptedDesc, jsonSvc)
+	e.Cases("json-two-requests", e.N(12, 100), func(i int, r *rand.Rand) {
+		m1, m2 := &tpb.Message{Payload: []byte(fmt.Sprintf("first-%d", i)), Count: 1}, &tpb.Message{Payload: []byte("second"), Count: 2}
+		b1, _ := protojson.Marshal(m1)
+		b2, _ := protojson.Marshal(m2)
+		sep := pick(r, "", " ", "\n", "\r\n")
+		two := i%3 != 0
+		body := append([]byte{}, b1...)
+		if two {
+			body = append(append(body, sep...), b2...)
+		}
+		sc := &Script{Kind: Unary, UnaryReq: m1, Resp: &tpb.Message{Payload: []byte("reply")}}
+		run := jsonSvc.NewRun(sc, "http-direct")
+		defer jsonSvc.Forget(run)
+		hr := httptest.NewRequest("POST", Unary.Method(), bytes.NewReader(body))
+		hr.Header.Set("Content-Type", httpgrpc.ApplicationJson)
+		hr.Header.Set("X-Verif-Run", run.ID)
+		rec := httptest.NewRecorder()
+		pan := guard(func() { jsonSrv.ServeHTTP(rec, hr) })
+		e.Eval(fmt.Sprintf("json-two-requests|two=%v|sep=%q", two, sep), true)
+		w := map[string]any{"body": string(body), "http_status": rec.Code, "grpc_status": rec.Header().Get("X-GRPC-Status")}
+		switch {
+		case pan != "":
+			e.Violate("http-direct/requests/json/panic", trunc(pan, 400), w)
+		case two && rec.Code == 200:
+			e.Violate("http-direct/requests/json/extra-success", "a unary JSON request carrying two request messages was answered 200", w)
+		case !two && rec.Code != 200:
+			e.Violate("http-direct/requests/json/single-failed", fmt.Sprintf("a unary JSON request carrying one message was answered %d", rec.Code), w)
+		}
+	})
 
 	e.Cases("requests", e.N(300, 4000), func(i int, r *rand.Rand) {
 		c := []*Carrier{cs.list[1], cs.list[2], decServer, decMux}[i%4]
